@@ -53,6 +53,7 @@ type RuleStat struct {
 
 // Ctx is the loaded program plus the obligation log.
 type Ctx struct {
+	globalRaw      map[*ssa.Global]Val                      // consteval values of immutable globals (fold.go)
 	callersOf      map[*ssa.Function]map[*ssa.Function]bool // static callers (rules_c09.go ownerName)
 	fnLookups      map[string]bool                          // every (package|name) asked of fn, for -anchors
 	renamed        map[string]*ssa.Function                 // anchors found by signature after a rename
